@@ -34,13 +34,23 @@ class Stub:
 
 KEYS = {'auto': None, 's=a': 'a', 's=b': 'b', 's=x_1': 'x_1', 's=x_0': 'x_0', 'nonstr': 1.0}
 DISTS = {'r=0,2': (0, 2), 'r=-1,1': (-1.0, 1.0), 'i=3,2': Stub(3, 2), 'n=3/2': 1.5, 'n=2': 2, 'l=a': 'a', 'l=b': 'b',
-         'l=x_0': 'x_0', 'l=x_1': 'x_1', 'o': [0.0]}
+         'l=x_0': 'x_0', 'l=x_1': 'x_1', 'o': [0.0],
+         # fixed values of numpy scalar types (elements of arrays): numbers like any other; the model sees `n=<value>`
+         'n=7': np.int64(7), 'n=5/2': np.float32(2.5), 'n=1/4': np.float64(0.25)}
 SMALL_KEYS = ['auto', 's=a', 's=x_1', 'nonstr']
 SMALL_DISTS = ['r=0,2', 'n=3/2', 'l=a', 'l=x_1', 'l=x_0', 'o']
 
 
+def to_frac(x):
+    if isinstance(x, Fraction):
+        return x
+    if isinstance(x, numbers.Integral):
+        return Fraction(int(x))
+    return Fraction(float(x))
+
+
 def frac_str(f):
-    f = Fraction(f)
+    f = to_frac(f)
     return str(f.numerator) if f.denominator == 1 else '%d/%d' % (f.numerator, f.denominator)
 
 
@@ -70,12 +80,22 @@ def ppf(d, u):
     return Fraction(d.kwds['loc']) + Fraction(d.kwds['scale']) * u
 
 
-def apply_word(word):
-    """run a word on the real Prior; returns (prior, outcomes, property failures)"""
+def apply_word(word, interleave=False):
+    """run a word on the real Prior; returns (prior, outcomes, property failures).  With `interleave` the prior is used (both
+    transforms) after every declaration, as a program that extends a prior it has already evaluated does."""
     from nautilus.prior import Prior
     p = Prior()
     outs, fails = [], []
     for letter in word:
+        if interleave and len(p.keys) == len(p.dists):
+            n_free = sum(1 for d in p.dists if is_free(d))
+            if n_free >= 1:
+                try:
+                    u = np.full(n_free, 0.375)
+                    p.unit_to_physical(u)
+                    p.unit_to_dictionary(u)
+                except Exception:
+                    pass
         k, d = letter.split(':')
         before = (list(p.keys), list(p.dists))
         try:
@@ -109,7 +129,7 @@ def spec_values(p, u):
             vals[k] = ppf(d, u[i])
             i += 1
         elif isinstance(d, numbers.Number):
-            vals[k] = Fraction(d)
+            vals[k] = to_frac(d)
     for k, d in zip(p.keys, p.dists):
         if isinstance(d, str):
             t = d
@@ -210,7 +230,7 @@ def words(chk, rng):
         for _ in range(L):
             if rng.random() < 0.6:
                 k = ['auto', 's=a', 's=b', 's=x_1', 's=x_0'][int(rng.integers(0, 5))]
-                d = ['r=0,2', 'r=-1,1', 'i=3,2', 'n=3/2', 'n=2', 'l=a', 'l=b', 'l=x_0', 'l=x_1'][int(rng.integers(0, 9))]
+                d = ['r=0,2', 'r=-1,1', 'i=3,2', 'n=3/2', 'n=2', 'l=a', 'l=b', 'l=x_0', 'l=x_1', 'n=7', 'n=5/2', 'n=1/4'][int(rng.integers(0, 12))]
                 w.append(k + ':' + d)
             else:
                 w.append(full[int(rng.integers(0, len(full)))])
@@ -232,8 +252,8 @@ def run(chk):
     kinds = {}
     distinct_states = set()
     nontrivial = 0
-    for w in ws:
-        p, outs, fails = apply_word(w)
+    for wi, w in enumerate(ws):
+        p, outs, fails = apply_word(w, interleave=bool(wi % 2))
         n_free = sum(1 for d in p.dists if is_free(d))
         us = [Fraction(int(rng.integers(0, 8)), 8) for _ in range(n_free)]
         wrong = rng.random() < 0.1
@@ -241,7 +261,7 @@ def run(chk):
             us = us + [Fraction(1, 4)]
         phys_s, dic_s, f2 = transforms(p, us)
         for key, what in fails + f2:
-            chk.fail(key, what, {'input': {'word': list(w), 'u': [str(x) for x in us]}})
+            chk.fail(key, what, {'input': {'word': list(w), 'u': [str(x) for x in us], 'interleave': bool(wi % 2)}})
         for o in outs:
             kinds[o] = kinds.get(o, 0) + 1
         st = state_repr(p)
@@ -301,7 +321,7 @@ def canon(s):
 
 def replay(doc):
     inp = doc['input']
-    p, outs, fails = apply_word(inp['word'])
+    p, outs, fails = apply_word(inp['word'], interleave=bool(inp.get('interleave')))
     us = [Fraction(x) for x in inp.get('u', [])]
     _, _, f2 = transforms(p, us)
     for key, what in fails + f2:
